@@ -577,7 +577,14 @@ macro_rules! poly_family {
         $o.emit(json!({"k": "poly", "op": "dot", "f": $fm, "ty": stringify!($V4), "sp": "length_squared", "a": wv(&a4), "b": wv(&a4), "got": w($V4::from_slice(&a4).length_squared())}));
         // lerp / midpoint / distance_squared / reflect / project / reject (normalised second operand) as polynomials of the operand lanes
         {
-            let tt: $S = <$S>::from_bits(rnd_mod($r, is32) as _);
+            // the interpolation factor: moderate, or close to 1 (1 - t tiny against t: an evaluation that rounds t * a at the size of a,
+            // such as (a - t a) + t b, is then off by far more than a few epsilon of the terms), or close to 0
+            let tt: $S = {
+                let m: $S = <$S>::from_bits(rnd_mod($r, is32) as _);
+                let k = 2 + $r.below(if is32 { 18 } else { 44 }) as i32;
+                let d: $S = (1.0 + ($r.below(1 << 20) as $S) / 1048576.0) * (2.0 as $S).powi(-k);
+                match $r.below(4) { 0 => 1.0 - d, 1 => 1.0 + d, 2 => d, _ => m }
+            };
             macro_rules! vec_polys {
                 ($V:ident, $a:ident, $b:ident) => {{
                     let (va, vb) = ($V::from_slice(&$a), $V::from_slice(&$b));
@@ -998,6 +1005,17 @@ macro_rules! rel_quat {
                     $o.emit(json!({"k": "rel", "op": "slerp_int", "f": $fm, "ty": ty, "q0": wq(&q0), "q1": wq(&q1p), "ks": ks, "r": rk}));
                 }
             }
+            // the same between well separated rotations (1.5 .. 3.1 rad), where the arguments of the sines wrap around several times
+            {
+                let ang2: $S = [1.5, 2.2, 2.9, 3.1][$r.below(4) as usize];
+                let q2 = ($Q::from_axis_angle(axis, ang2) * q0).normalize();
+                let q2p = if q0.dot(q2) < 0.0 { -q2 } else { q2 };
+                if q0.dot(q2p) > 0.02 {
+                    let ks: Vec<i64> = vec![-9, -6, -4, -3, -2, 3, 4, 5, 7, 10];
+                    let rk: Vec<Value> = ks.iter().map(|k| wq(&q0.slerp(q2p, *k as $S))).collect();
+                    $o.emit(json!({"k": "rel", "op": "slerp_int", "f": $fm, "ty": ty, "q0": wq(&q0), "q1": wq(&q2p), "ks": ks, "r": rk}));
+                }
+            }
             // unnormalised inputs with a raw random quaternion
             let raw = { let l: Vec<$S> = (0..4).map(|_| <$S>::from_bits(rnd_mod($r, is32) as _)).collect(); $Q::from_slice(&l) };
             if raw.length_squared() > 0.0 && (raw.length_squared() as f64) > 1e-30 && (raw.length_squared() as f64) < 1e30 {
@@ -1316,6 +1334,65 @@ fn rec_macc(o: &mut Out, r: &mut Rng, draws: u64) {
     one!(Mat2, Mat3, Mat3A, Mat4, DMat2, DMat3, DMat4, Affine2, Affine3A, DAffine2, DAffine3);
 }
 
+// ------------------------------------------------------------------------------------------ swizzle histories (Trace_C16)
+/// A random history of swizzle getters and `with_` setters on one register per vector type: getters of the register's own length are
+/// written back (the register is permuted in place), the others are only observed, setters replace the named lanes.  Every event logs the
+/// method name, its letters, the replacement lanes and the observed lanes / result type; Trace_C16.tla replays it on Swizzle.tla.
+fn rec_swz(o: &mut Out, r: &mut Rng, draws: u64) {
+    use glam::*;
+    use hx::swz_gen;
+    use hx::tv::{Scalar, TV};
+    const L: [&str; 4] = ["x", "y", "z", "w"];
+    fn fam(name: &str) -> &str { let t = name.trim_end_matches('A'); &t[..t.len() - 1] }
+    macro_rules! hist {
+        ($V:ident, $n:expr, $get:ident, $with:expr) => {{
+            let n: usize = $n;
+            let mask = <<$V as TV>::S as Scalar>::SC.mask();
+            let rb = |r: &mut Rng| -> u64 { match r.below(6) { 0 => 0, 1 => mask, 2 => (mask >> 1) + 1, _ => r.next() & mask } };
+            let start: Vec<u64> = (0..n).map(|_| rb(r)).collect();
+            let vars = <$V as TV>::variants(&start);
+            let mut v: $V = vars[(r.next() as usize) % vars.len()];
+            o.emit(json!({"k": "swz", "op": "begin", "ty": <$V as TV>::NAME, "fam": fam(<$V as TV>::NAME), "n": n, "obs": hexs(&v.to_bits())}));
+            for _ in 0..(10 * draws) {
+                let setter = n > 2 && r.below(3) == 0;
+                if setter {
+                    // pairwise distinct letters, shorter than the vector
+                    let k = 2 + r.below((n - 2) as u64) as usize;
+                    let mut idx: Vec<usize> = (0..n).collect();
+                    for i in 0..k { let j = i + r.below((n - i) as u64) as usize; idx.swap(i, j); }
+                    let nm: Vec<&str> = idx[..k].iter().map(|i| L[*i]).collect();
+                    let name: String = nm.concat();
+                    let rhs: Vec<u64> = (0..k).map(|_| rb(r)).collect();
+                    let f: fn($V, &str, &[u64]) -> Option<swz_gen::SwOut> = $with;
+                    if let Some((bits, rty)) = f(v, &name, &rhs) {
+                        v = <$V as TV>::from_bits(&bits);
+                        o.emit(json!({"k": "swz", "op": "with", "ty": <$V as TV>::NAME, "name": name, "nm": nm, "rhs": hexs(&rhs), "rty": rty, "obs": hexs(&bits)}));
+                    } else {
+                        o.emit(json!({"k": "swz", "op": "missing", "ty": <$V as TV>::NAME, "name": format!("with_{}", name)}));
+                    }
+                } else {
+                    let k = 2 + r.below(3) as usize;
+                    let nm: Vec<&str> = (0..k).map(|_| L[r.below(n as u64) as usize]).collect();
+                    let name: String = nm.concat();
+                    if let Some((bits, rty)) = swz_gen::$get(v, &name) {
+                        let keep = k == n && r.below(2) == 0;
+                        if keep { v = <$V as TV>::from_bits(&bits); }
+                        o.emit(json!({"k": "swz", "op": if keep { "perm" } else { "get" }, "ty": <$V as TV>::NAME, "name": name, "nm": nm, "rty": rty, "obs": hexs(&bits)}));
+                    } else {
+                        o.emit(json!({"k": "swz", "op": "missing", "ty": <$V as TV>::NAME, "name": name}));
+                    }
+                }
+            }
+        }};
+    }
+    macro_rules! h2 { ($V:ident) => { hist!($V, 2, get2, |_v, _n, _r| None) }; }
+    macro_rules! h3 { ($V:ident) => { hist!($V, 3, get3, |v, n, r| swz_gen::with3(v, n, r)) }; }
+    macro_rules! h4 { ($V:ident) => { hist!($V, 4, get4, |v, n, r| swz_gen::with4(v, n, r)) }; }
+    hx::for_tv2!(h2);
+    hx::for_tv3!(h3);
+    hx::for_tv4!(h4);
+}
+
 // ------------------------------------------------------------------------------------------ replay of one event
 fn unlimbs(v: &[Value]) -> u128 {
     let mut m: u128 = 0;
@@ -1437,6 +1514,7 @@ fn main() {
         "rel" => rec_rel(&mut o, &mut r, draws),
         "acc" => rec_acc(&mut o, &mut r, draws),
         "macc" => rec_macc(&mut o, &mut r, draws),
+        "swz" => rec_swz(&mut o, &mut r, draws),
         _ => panic!("mode"),
     }
     o.w.flush().unwrap();
